@@ -17,7 +17,7 @@ Theorem C04_blocks_float r gk chunks ng m nt :
   kernel_value_reducer r -> sum_needs_no_nulls fops r -> (0 < nt)%nat -> chunks <> [] ->
   length gk = length (concat chunks) -> wf_mask (length gk) m -> covered chunks m ->
   group_func_wrap fops r gk chunks ng m nt = Ok (P fops r ng (sel_rows fops gk (concat chunks) m)).
-Proof. exact (group_func_wrap_any_split fops fops_laws fops_sum_closed r gk chunks ng m nt). Qed.
+Proof. exact (group_func_wrap_any_split fops fops_laws r gk chunks ng m nt). Qed.
 Print Assumptions C04_blocks_float.
 
 (* integer dtypes that hold no nulls (int8..int64 arrays, unsigned, bool) *)
@@ -27,20 +27,21 @@ Theorem C04_blocks_int nullv r gk chunks ng m nt :
   group_func_wrap (zops false nullv) r gk chunks ng m nt
   = Ok (P (zops false nullv) r ng (sel_rows (zops false nullv) gk (concat chunks) m)).
 Proof.
-  exact (fun Hr => group_func_wrap_any_split _ (zops_laws false nullv) (zops_never_null_closed nullv)
+  exact (fun Hr => group_func_wrap_any_split _ (zops_laws false nullv)
                      r gk chunks ng m nt Hr (fun _ _ => eq_refl)).
 Qed.
 Print Assumptions C04_blocks_int.
 
-(* temporal values (int64 view, NaT = sentinel): sums need "no partial sum equals the sentinel" *)
+(* temporal values (int64 view, NaT = sentinel): per-thread / per-chunk partial sums are merged by the plain
+   addition, so no side condition on the partial sums is needed (before /repo fix 46273b3 the merge reducer
+   looked at the sentinel and this theorem needed "no partial sum equals the sentinel") *)
 Theorem C04_blocks_temporal r gk chunks ng m nt :
-  sum_closed (zops true 0) ->
   kernel_value_reducer r -> r <> Rsum -> (0 < nt)%nat -> chunks <> [] ->
   length gk = length (concat chunks) -> wf_mask (length gk) m -> covered chunks m ->
   group_func_wrap (zops true 0) r gk chunks ng m nt
   = Ok (P (zops true 0) r ng (sel_rows (zops true 0) gk (concat chunks) m)).
 Proof.
-  exact (fun SC Hr Hne => group_func_wrap_any_split _ (zops_laws true 0) SC r gk chunks ng m nt Hr
+  exact (fun Hr Hne => group_func_wrap_any_split _ (zops_laws true 0) r gk chunks ng m nt Hr
                             (fun E => False_ind _ (Hne E))).
 Qed.
 Print Assumptions C04_blocks_temporal.
